@@ -26,8 +26,25 @@ type textCase struct {
 }
 
 type textRes struct {
-	strs []string          // claim id fields
-	kvs  map[string]string // session-info attributes
+	strs []string          // claim id fields; for ParseSinful: see sinfulStrs
+	kvs  map[string]string // session-info attributes / sinful params
+}
+
+// sinfulStrs flattens a SinfulInfo: err, primary, host, port, sock, privaddr, privnet, alias,
+// noudp, #addrs, addrs..., then (broker, id, raw) per CCB contact.
+func sinfulStrs(i addresses.SinfulInfo, err error) []string {
+	b := func(x bool) string {
+		if x {
+			return "1"
+		}
+		return ""
+	}
+	out := []string{b(err != nil), i.PrimaryAddr, i.Host, i.Port, i.SharedPortID, i.PrivateAddr, i.PrivateNet, i.Alias, b(i.NoUDP), fmt.Sprint(len(i.Addrs))}
+	out = append(out, i.Addrs...)
+	for _, c := range i.CCBContacts {
+		out = append(out, c.BrokerAddr, c.CCBID, c.Raw)
+	}
+	return out
 }
 
 var textFns = []string{"claim_strict", "attrs", "secinfo", "claim", "private_inherit", "inherit", "import_claim",
@@ -81,7 +98,12 @@ func runText(tc *textCase) (textRes, []failure) {
 		case "sinful":
 			i, err := addresses.ParseSinful(s)
 			_, _ = i.IsCCB(), i.IsSharedPort()
-			return nil, false, err
+			res.strs = sinfulStrs(i, err)
+			res.kvs = i.Params
+			if i.Raw != s {
+				extra = append(extra, failure{"accounting", "ParseSinful: Raw differs from the input"})
+			}
+			return nil, false, nil
 		case "ccb_contact":
 			b, _, _ := addresses.SplitCCBContact(s)
 			_ = addresses.BrokerIsCCB(b)
@@ -204,8 +226,90 @@ func addTextCase(c *core.Ctx, fn string, in []byte) {
 		if len(keys) > 0 {
 			c.Nontrivial("attrs|" + string(in))
 		}
+	case "sinful":
+		st := res.strs
+		nAddrs := 0
+		fmt.Sscan(st[9], &nAddrs)
+		var addrs, ccb, kv []string
+		for _, a := range st[10 : 10+nAddrs] {
+			addrs = append(addrs, bytesTerm([]byte(a)))
+		}
+		rest := st[10+nAddrs:]
+		for k := 0; k+2 < len(rest)+0 && k+3 <= len(rest); k += 3 {
+			ccb = append(ccb, "("+bytesTerm([]byte(rest[k]))+", "+bytesTerm([]byte(rest[k+1]))+", "+bytesTerm([]byte(rest[k+2]))+")")
+		}
+		keys := make([]string, 0, len(res.kvs))
+		for k := range res.kvs {
+			keys = append(keys, k)
+		}
+		sort.Strings(keys)
+		for _, k := range keys {
+			kv = append(kv, core.Pair(bytesTerm([]byte(k)), bytesTerm([]byte(res.kvs[k]))))
+		}
+		bt := func(x string) string { return bytesTerm([]byte(x)) }
+		c.AddCase(fmt.Sprintf("CSinful %s %s %s %s %s %s %s %s %s %s %s %s %s", bytesTerm(in), core.Bool(st[0] != ""),
+			bt(st[1]), bt(st[2]), bt(st[3]), bt(st[4]), bt(st[5]), bt(st[6]), bt(st[7]), core.Bool(st[8] != ""),
+			core.List(addrs), core.List(ccb), core.List(kv)), tc)
+		if st[0] == "" && len(keys) > 0 {
+			c.Nontrivial("sinful|" + string(in))
+		}
 	default:
 		c.Evaluated(1)
+	}
+}
+
+// genSinful: structured sinful strings (every combination class of brackets, host, port,
+// parameters) and malformed ones.
+func genSinful(c *core.Ctx) {
+	hosts := []string{"127.0.0.1", "[::1]", "host.example", "", "a:b", "fe80::1%25eth0", "h\x00st", "\xff\xfe"}
+	ports := []string{"9618", "", "0", "65535", "65536", "99999999999999999999", "-1", "abc", "96 18"}
+	wraps := [][2]string{{"<", ">"}, {"", ""}, {"<", ""}, {"", ">"}, {"<<", ">>"}, {" <", "> "}, {"\u00a0<", ">\u2003"}, {"\t\n<", ">\r\v\f"}, {">", "<"}, {"\u0085", "\u3000"}, {"\xc2", "\xa0"}}
+	queries := []string{"", "?", "?sock=startd_1_2", "?sock=a&sock=b", "?noUDP", "?noUDP=&alias=x", "?addrs=1.2.3.4-9618+[--1]-9618+", "?addrs=+",
+		"?PrivAddr=%3c10.0.0.3:5%3e&PrivNet=net", "?ccbid=192.168.1.2:9618%3fsock%3dc%231+10.0.0.2:9618%2342", "?ccbid=%3ch:1%3e%237%20b%23%20+%23x",
+		"?ccbid=a%23b%c2%a0c%23d%e2%80%83e%23f", "?ccbid=a%23b\u00a0c%23d", "?ccbid=%23&ccbid=x%23", "?ccbid=<>%231 <x%232 x>%233 %3c%3e%234", "?ccbid=a%23%23b%20%23",
+		"?&&;;", "?=v", "?k=", "?k", "?k=v=w", "?a=1;b=2&c=3;", "?%", "?a=%", "?a=%4", "?a=%zz", "?%%41=1", "?a=%41%", "?a=b&c=%g1&d=e", "?%41=%42%43",
+		"?a=\x00&b=\xff", "?a=<>&b=?&c=??", "??a=1", "?a=1?b=2", "?sock=%00", "?alias=%e4%bd%a0", "?noUDP&noUDP=1&NOUDP"}
+	n := 0
+	for hi, h := range hosts {
+		for pi, p := range ports {
+			for wi, w := range wraps {
+				for qi, q := range queries {
+					// all of hosts x ports with the plain wrapper, everything else rotated
+					if !(wi == 0 && qi < 3) && (hi+2*pi+3*wi+5*qi)%29 != 0 {
+						continue
+					}
+					if c.Quick() && !(wi == 0 && qi == 0) && n%2 == 1 {
+						n++
+						continue
+					}
+					n++
+					sep := ":"
+					if p == "" && hi%2 == 0 {
+						sep = ""
+					}
+					addTextCase(c, "sinful", []byte(w[0]+h+sep+p+q+w[1]))
+				}
+			}
+		}
+	}
+	for _, w := range wraps { // every wrapper and every query at least once
+		addTextCase(c, "sinful", []byte(w[0]+"h:1?sock=x"+w[1]))
+	}
+	for _, q := range queries {
+		addTextCase(c, "sinful", []byte("<10.0.0.1:9618"+q+">"))
+		addTextCase(c, "sinful", []byte("10.0.0.1:9618"+q))
+	}
+	nMut := 120
+	if !c.Quick() {
+		nMut = 1500
+	}
+	for i := 0; i < nMut; i++ {
+		base := "<" + hosts[c.Rng.Intn(len(hosts))] + ":" + ports[c.Rng.Intn(len(ports))] + queries[c.Rng.Intn(len(queries))] + ">"
+		addTextCase(c, "sinful", mutateText(c, []byte(base)))
+	}
+	for _, unit := range []string{"a", ":", "?", "&", ";", "=", "%41", "%", "<", ">", " ", "\u00a0", "#", "+", "k=v&", "ccbid=a%23b%20"} {
+		addTextCase(c, "sinful", []byte(strings.Repeat(unit, 6000/len(unit))))
+		addTextCase(c, "sinful", []byte("<h:1?ccbid="+strings.Repeat(unit, 3000/len(unit))+">"))
 	}
 }
 
